@@ -9,6 +9,7 @@ import (
 	"os"
 	"path/filepath"
 	"strconv"
+	"strings"
 	"testing"
 	"time"
 
@@ -70,6 +71,10 @@ func TestWorker(t *testing.T) {
 	agg.FirstIndex = from
 	start := time.Now()
 	seenClass := map[string]bool{}
+	// signatures of listed known findings: recorded, not minimised, and not
+	// counted towards the stop-after-N-violations limit
+	known := strings.Split(os.Getenv("VERIF_KNOWN"), "\x1f")
+	nKnown := 0
 	for i := from; i < to; i += stride {
 		if time.Now().After(deadline) {
 			agg.StoppedEarly = true
@@ -91,9 +96,18 @@ func TestWorker(t *testing.T) {
 				continue
 			}
 			seenClass[rc.Violation.Class] = true
-			fv := handleViolation(t, sc, tier, base, i, seed, tape, rc, replayDir)
+			isKnown := false
+			for _, k := range known {
+				if k != "" && strings.HasPrefix(rc.Violation.Class, k) {
+					isKnown = true
+				}
+			}
+			fv := handleViolation(t, sc, tier, base, i, seed, tape, rc, replayDir, !isKnown)
 			agg.Violations = append(agg.Violations, fv)
-			if len(agg.Violations) >= maxViol {
+			if isKnown {
+				nKnown++
+			}
+			if len(agg.Violations)-nKnown >= maxViol {
 				agg.StoppedEarly = true
 				break
 			}
@@ -109,7 +123,7 @@ func TestWorker(t *testing.T) {
 	fmt.Printf("worker done runs=%d violations=%d\n", agg.Runs, len(agg.Violations))
 }
 
-func handleViolation(t *testing.T, sc *fw.Scenario, tier string, base uint64, index int, seed uint64, tape *sim.Tape, rc *fw.RunCtx, dir string) fw.FoundViolation {
+func handleViolation(t *testing.T, sc *fw.Scenario, tier string, base uint64, index int, seed uint64, tape *sim.Tape, rc *fw.RunCtx, dir string, minimise bool) fw.FoundViolation {
 	orig := tape.Recorded()
 	class := rc.Violation.Class
 	try := func(c map[string][]int) string {
@@ -124,7 +138,9 @@ func handleViolation(t *testing.T, sc *fw.Scenario, tier string, base uint64, in
 		Violation: *rc.Violation, Digest: rc.Digest, Streams: orig, Rendering: rc.Sample, DrawsTotal: fw.TotalDraws(orig),
 	}
 	// The recorded tape must reproduce before minimising is meaningful.
-	if try(orig) == class {
+	if !minimise {
+		// known finding: keep the recorded tape as it is
+	} else if try(orig) == class {
 		maxAttempts := int(envInt("VERIF_MIN_ATTEMPTS", 400))
 		best, attempts := fw.Minimise(orig, class, try, maxAttempts, 20*time.Second)
 		r := fw.Execute(t, sc, tier, seed, index, sim.ReplayTape(seed, best), true)
